@@ -161,6 +161,8 @@ def check(prog: Program, tier: str) -> Result:
             "edits) is reached only under `not has_ignore_comment(text, range)` for a range built from the same "
             "positions, or edits whitespace only; (R20.5) has_ignore_comment itself answers True exactly for a line "
             "that overlaps the range and matches the pattern, with character offsets advanced by whole lines. "
+            "(R20.6) scheduled rewrites: the scheduler refuses a transaction when ANY range touches an annotated line (C10 R10.6, adopted); "
+            "(R20.7) a skipped file is not rewritten: write only if the text changed (C03 R3.2, adopted). "
             "Token-blind whole-text stages (also rewriting annotated lines) are reported under C11 (R20.4)."),
         rule_text="instances = statements of format_code, regex pairs, splice/keep-mask/line-edit sites of the package, clauses of has_ignore_comment",
     )
@@ -178,7 +180,7 @@ def check(prog: Program, tier: str) -> Result:
               "scheduled rewrites honour `# pyrefact: ignore` only because the scheduler refuses a transaction when ANY of its ranges touches an annotated line")
     res.adopt(_c03.check(prog, tier), {"R3.2"}, "R20.7",
               "a `# pyrefact: skip_file` file stays byte-identical only if the file entry points write nothing when the text is unchanged (text-mode reading normalises line ends)")
-    res.floors.update({"R20.1": 10, "R20.2": 1, "R20.3": 6, "R20.5": 3, "R20.6": 1, "R20.7": 2})
+    res.floors.update({"R20.1": 10, "R20.2": 1, "R20.3": 6, "R20.5": 3, "R20.6": 1, "R20.7": 1})
     return res
 
 
@@ -630,7 +632,7 @@ VARIANTS = [
 
 META = {
     "design_ref": "DESIGN.md section 3, C20",
-    "technique": "path-condition dominance (skip-file test, ignore-comment guards on text splices) + regex-AST sibling cross-check + text-provenance dataflow",
+    "technique": "path-condition dominance (skip-file test, ignore-comment guards on text splices) + regex-AST sibling cross-check + text-provenance dataflow; adopted scheduler (C10 R10.6) and write-guard (C03 R3.2) clauses",
     "level_text": ("Decides on the current source that the skip-file test dominates all processing of the unmodified "
                    "input and returns it unchanged, that the two opt-out grammars agree, that has_ignore_comment has the "
                    "shape 'True iff some line overlapping the range matches', and that every position-based rebuild of "
